@@ -125,7 +125,13 @@ func (r *c06run) judge(c *C06Case, o *plan.Outcome, relaxFam bool) (class, detai
 		return "", "" // fail-closed, as required
 	}
 	if hasErr { // the error arrived with or after the byte that completed the buffer
-		r.res.Relaxed["i_error_at_or_after_completion_failclosed"]++
+		first := d.Log[d.FirstErr]
+		if before := d.DAtErr - first.Gave; before < need && d.DAtErr >= need {
+			// the failing read itself delivered the bytes that complete the buffer: all 4n/3 bytes WERE delivered,
+			// so the first sentence of the statement applies (this is also what io.ReadFull does)
+			return "boundary", fmt.Sprintf("error %s although all %d bytes were delivered (the last %d together with the source's error): the encoding of the delivered bytes is due", o.Err, need, need-before)
+		}
+		r.res.Relaxed["i_error_on_a_read_after_completion_failclosed"]++
 		return "", ""
 	}
 	if d.Stalls > 0 {
